@@ -127,7 +127,30 @@ def cand_svrp(inst, n_cust, T):
     return out
 
 
+def cand_mdcpdp(n, D):
+    """depot 0 first, every depot opened exactly once (routes may be empty), each non-final route closed by a return
+    to its own depot, customers D..D+n-1 in any order / split; precedence and capacity are judged by the oracle"""
+    out = []
+    custs = list(range(D, D + n))
+    for order in itertools.permutations(range(1, D)):
+        depots = [0] + list(order)
+        for p in itertools.permutations(custs):
+            # split p into D consecutive (possibly empty) parts
+            for cuts in itertools.combinations_with_replacement(range(n + 1), D - 1):
+                bounds = [0] + list(cuts) + [n]
+                acts = []
+                for r, d in enumerate(depots):
+                    acts.append(d)
+                    acts += list(p[bounds[r]:bounds[r + 1]])
+                    if r < D - 1:
+                        acts.append(d)
+                out.append(acts)
+    return out
+
+
 def candidates(name, cfg, inst):
+    if name == "mdcpdp":
+        return cand_mdcpdp(cfg["n"], cfg["depots"])
     if name in ("tsp", "atsp"):
         return cand_tsp(cfg["n"])
     if name == "pdp":
@@ -396,7 +419,7 @@ def cases(tier):
 
     @st.composite
     def c(draw):
-        name = draw(st.sampled_from(list(SMALL) + ["pdp", "flp", "mcp", "cvrp", "cvrptw", "mtvrp", "op", "pctsp"]))
+        name = draw(st.sampled_from(list(SMALL) + ["pdp", "flp", "mcp", "cvrp", "cvrptw", "mtvrp", "op", "pctsp", "mdcpdp"]))
         spec = SPECS[name]
         cfg = draw(spec.cfg("quick"))
         if name in SMALL:
@@ -406,6 +429,9 @@ def cases(tier):
             if name == "mtsp":
                 cfg["min_agents"] = min(cfg["min_agents"], 3, cfg["n"] - 1)
                 cfg["max_agents"] = max(cfg["min_agents"], min(cfg["max_agents"], 3, cfg["n"] - 1))
+        elif name == "mdcpdp":
+            cfg["n"] = draw(st.sampled_from([2, 4]))
+            cfg["depots"] = draw(st.integers(1, 3))
         elif name == "pdp":
             cfg["n"] = draw(st.sampled_from([2, 4, 6] if big else [2, 4]))
         elif name == "flp":
